@@ -119,6 +119,11 @@ func (s *IntState) Next(req *Req) []*IntState {
 			e := s.clone()
 			e.exec()
 			out = append(out, e)
+			if s.Mem.Get(s.PC) == 0xed && s.Mem.Get(s.PC+1) == 0x4d && e.IFF1 != e.IFF2 {
+				e2 := e.clone()
+				e2.IFF1 = e2.IFF2
+				out = append(out, e2)
+			}
 		}
 		n := s.clone()
 		n.JustEI = false
@@ -158,7 +163,15 @@ func (s *IntState) Next(req *Req) []*IntState {
 	}
 	n := s.clone()
 	n.exec()
-	return []*IntState{n}
+	out := []*IntState{n}
+	if s.Mem.Get(s.PC) == 0xed && s.Mem.Get(s.PC+1) == 0x4d && n.IFF1 != n.IFF2 {
+		// the statement says what RETN does to IFF1 and nothing about RETI; on silicon RETI copies IFF2
+		// as well: both are allowed
+		m := n.clone()
+		m.IFF1 = m.IFF2
+		out = append(out, m)
+	}
+	return out
 }
 
 // exec executes one instruction of the mini-ISA at PC.
